@@ -25,7 +25,7 @@ BUDGET_S = {"quick": 120.0, "thorough": 1500.0}
 KEYS = ["DEFAULT_SCHEMA", "DIRECTORY", "TSQL_NO_SEMICOLON", "LATERAL_COLUMN_ALIAS_REFERENCE"]
 BOOL_KEYS = {"TSQL_NO_SEMICOLON", "LATERAL_COLUMN_ALIAS_REFERENCE"}
 STR_VALUES = ["", "s1", "s2", "Ods", 5]
-BOOL_VALUES = [True, False, "true", "0", "1", "off", "YES", " y ", 0, 1, 2, "ok", "no"]
+BOOL_VALUES = [True, False, "true", "0", "1", "off", "YES", " y ", 0, 1, 2, -1, "-3", "ok", "no"]
 ENV_STR = ["envs", "", "e2"]
 ENV_BOOL = ["true", "false", "1", "0", "yes", "abc", "ON", ""]
 AFFIRM = ("true", "on", "ok", "y", "yes", "1")
